@@ -184,7 +184,7 @@ def mk(kind, phase="connected"):
 def drive_stream(kind, meth, phase="connected"):
     def f(ex):
         o, s = mk(kind, phase)
-        if bool(getattr(o, "connected", True)) != PHASES[phase][1] or o.cutoff:
+        if kind in CLIENT_PHASES and (bool(o.connected) != PHASES[phase][1] or o.cutoff):
             return "Other:harness could not set up phase %s" % phase
         s.exc = ex
         o.tx(b"queued")
